@@ -8,6 +8,7 @@ Require Import Grist.Model.MetaCascade Grist.Proofs.MetaCascade_base Grist.Proof
   Grist.Proofs.MetaCascade_add Grist.Proofs.MetaCascade_add2 Grist.Proofs.MetaCascade_add3
   Grist.Proofs.MetaCascade_add4 Grist.Proofs.MetaCascade_add5 Grist.Proofs.MetaCascade_add6
   Grist.Proofs.MetaCascade_add7 Grist.Proofs.MetaCascade_regroup Grist.Proofs.MetaCascade_regroup2
+  Grist.Proofs.MetaCascade_conv
   Grist.Proofs.MetaCascade_upd Grist.Proofs.MetaCascade_upd2 Grist.Proofs.MetaCascade_upd3.
 Open Scope Z_scope.
 
@@ -45,6 +46,7 @@ Proof.
   - apply (create_summary_inv _ _ _ _ _ _ _ _ HI H).
   - apply (apply_regroup_inv _ _ _ HI H).
   - apply (remove_columns_regroup_inv _ _ _ _ HI H).
+  - apply (set_visible_inv [] _ _ _ _ HI H).
   - inversion H; subst. exact HI.
   - discriminate.
 Qed.
